@@ -665,30 +665,46 @@ func c14YamlSteps(sb *strings.Builder, key string, steps []c14Step) {
 	}
 }
 
-func c14Yaml(c c14Case) string {
+type c14SetCase struct {
+	Proxy bool        `json:"proxy"`
+	Def   *c14Default `json:"default"`
+	Rules []c14Rule   `json:"rules"`
+}
+
+func c14Yaml(c c14SetCase) string {
 	var sb strings.Builder
 
-	sb.WriteString("version: \"1alpha4\"\nname: test\nrules:\n  - id: r\n    match:\n      routes:\n        - path: /a\n")
+	sb.WriteString("version: \"1alpha4\"\nname: test\nrules:\n")
 
-	if c.Rule.Bt != nil {
-		sb.WriteString(fmt.Sprintf("      backtracking_enabled: %v\n", *c.Rule.Bt))
+	for i, r := range c.Rules {
+		sb.WriteString(fmt.Sprintf("  - id: r%d\n    match:\n      routes:\n        - path: /p%d\n", i, i))
+
+		if r.Bt != nil {
+			sb.WriteString(fmt.Sprintf("      backtracking_enabled: %v\n", *r.Bt))
+		}
+
+		if r.BadMeth {
+			sb.WriteString("      methods: [ \"\" ]\n")
+		}
+
+		if r.Backend {
+			sb.WriteString("    forward_to:\n      host: up.example.com\n")
+		}
+
+		c14YamlSteps(&sb, "execute", r.Exec)
+		c14YamlSteps(&sb, "on_error", r.Eh)
 	}
-
-	if c.Rule.BadMeth {
-		sb.WriteString("      methods: [ \"\" ]\n")
-	}
-
-	if c.Rule.Backend {
-		sb.WriteString("    forward_to:\n      host: up.example.com\n")
-	}
-
-	c14YamlSteps(&sb, "execute", c.Rule.Exec)
-	c14YamlSteps(&sb, "on_error", c.Rule.Eh)
 
 	return sb.String()
 }
 
-func c14RunRuleSet(c c14Case) (obs c14Obs) {
+type c14SetObs struct {
+	Status string   `json:"status"`
+	Rules  []c14Obs `json:"rules,omitempty"`
+	Err    string   `json:"err,omitempty"`
+}
+
+func c14RunRuleSet(c c14SetCase) (obs c14SetObs) {
 	mode := config.DecisionMode
 	if c.Proxy {
 		mode = config.ProxyMode
@@ -708,13 +724,13 @@ func c14RunRuleSet(c c14Case) (obs c14Obs) {
 	func() {
 		defer func() {
 			if p := recover(); p != nil {
-				obs = c14Obs{Status: "factory_panic", Err: fmt.Sprint(p)}
+				obs = c14SetObs{Status: "factory_panic", Err: fmt.Sprint(p)}
 			}
 		}()
 
 		f, err := NewRuleFactory(c14Factory{}, conf, mode, zerolog.Nop())
 		if err != nil {
-			obs = c14Obs{Status: "factory_failed", Err: err.Error()}
+			obs = c14SetObs{Status: "factory_failed", Err: err.Error()}
 
 			return
 		}
@@ -726,30 +742,115 @@ func c14RunRuleSet(c c14Case) (obs c14Obs) {
 		return obs
 	}
 
+	repo := newRepository(factory).(*repository) //nolint:forcetypeassert
+
 	defer func() {
 		if p := recover(); p != nil {
-			obs = c14Obs{Status: "panic", Err: fmt.Sprint(p)}
+			obs = c14SetObs{Status: "panic", Err: fmt.Sprint(p)}
+		}
+
+		// rejected as a whole: nothing of the set may have reached the repository
+		if obs.Status != "ok" && len(repo.knownRules) != 0 {
+			obs = c14SetObs{Status: "partially_loaded", Err: fmt.Sprintf("%d rules known after %s", len(repo.knownRules), obs.Status)}
 		}
 	}()
 
 	rs, err := config2.ParseRules("application/yaml", strings.NewReader(c14Yaml(c)), false)
 	if err != nil {
-		return c14Obs{Status: "rejected", Err: "parse: " + err.Error()}
+		return c14SetObs{Status: "rejected", Err: "parse: " + err.Error()}
 	}
 
 	rs.Source = "src"
 
-	repo := newRepository(factory).(*repository) //nolint:forcetypeassert
-
 	if err = NewRuleSetProcessor(repo, factory).OnCreated(rs); err != nil {
-		return c14Obs{Status: "rejected", Err: err.Error()}
+		return c14SetObs{Status: "rejected", Err: err.Error()}
 	}
 
-	if len(repo.knownRules) != 1 {
-		return c14Obs{Status: "rejected", Err: fmt.Sprintf("known rules: %d", len(repo.knownRules))}
+	if len(repo.knownRules) != len(c.Rules) {
+		return c14SetObs{Status: "partially_loaded", Err: fmt.Sprintf("known rules: %d of %d", len(repo.knownRules), len(c.Rules))}
 	}
 
-	return c14Observe(repo.knownRules[0].(*ruleImpl)) //nolint:forcetypeassert
+	obs = c14SetObs{Status: "ok"}
+
+	for i := range c.Rules {
+		var found *ruleImpl
+
+		for _, kr := range repo.knownRules {
+			if kr.ID() == fmt.Sprintf("r%d", i) {
+				found = kr.(*ruleImpl) //nolint:forcetypeassert
+			}
+		}
+
+		if found == nil {
+			return c14SetObs{Status: "partially_loaded", Err: fmt.Sprintf("rule r%d missing", i)}
+		}
+
+		obs.Rules = append(obs.Rules, c14Observe(found))
+	}
+
+	return obs
+}
+
+func c14CoqRule(r c14Rule) string {
+	bt := "None"
+	if r.Bt != nil {
+		bt = "(Some " + vf.CoqBool(*r.Bt) + ")"
+	}
+
+	return vf.CoqApp("rd", vf.CoqListOf(r.Exec, c14CoqStep), vf.CoqListOf(r.Eh, c14CoqEh), bt,
+		vf.CoqBool(r.Backend), vf.CoqBool(!r.BadMeth))
+}
+
+func c14CoqEff(o c14Obs) string {
+	return vf.CoqApp("eff", vf.CoqListOf(o.Sc, c14CoqMo), vf.CoqListOf(o.Sh, c14CoqMo),
+		vf.CoqListOf(o.Fi, c14CoqMo), vf.CoqListOf(o.Eh, c14CoqMo), vf.CoqBool(o.Bt))
+}
+
+func c14CoqSet(c c14SetCase, o c14SetObs) string {
+	def := "None"
+	if c.Def != nil {
+		def = "(Some " + vf.CoqApp("dd", vf.CoqListOf(c.Def.Exec, c14CoqStep), vf.CoqListOf(c.Def.Eh, c14CoqEh),
+			vf.CoqBool(c.Def.Bt)) + ")"
+	}
+
+	var obs string
+
+	switch o.Status {
+	case "factory_failed":
+		obs = "SFactoryFailed"
+	case "factory_panic":
+		obs = "SFactoryPanic"
+	case "rejected":
+		obs = "(SLoaded Rejected)"
+	case "panic":
+		obs = "(SLoaded Panic)"
+	case "ok":
+		obs = "(SLoaded (Ok " + vf.CoqListOf(o.Rules, c14CoqEff) + "))"
+	default: // partially_loaded: not expressible in the model's result type, shown as an accepted empty set
+		obs = "(SLoaded (Ok []))"
+	}
+
+	return vf.CoqApp("crs", vf.CoqBool(c.Proxy), def, vf.CoqListOf(c.Rules, c14CoqRule), obs)
+}
+
+func c14GenSet(r *vf.Rand) c14SetCase {
+	first := c14Gen(r)
+	c := c14SetCase{Proxy: first.Proxy, Def: first.Def, Rules: []c14Rule{first.Rule}}
+
+	// further rules are mostly well-formed so that "one bad rule rejects the set" is exercised
+	for i, n := 0, r.Intn(3); i < n; i++ {
+		more := c14Gen(r)
+		more.Rule.Backend = more.Rule.Backend || first.Proxy && r.Intn(100) < 90
+		c.Rules = append(c.Rules, more.Rule)
+	}
+
+	if r.Bool() {
+		r0 := c.Rules[0]
+		last := len(c.Rules) - 1
+		c.Rules[0], c.Rules[last] = c.Rules[last], r0
+	}
+
+	return c
 }
 
 func TestVerifC14RuleSet(t *testing.T) {
@@ -760,12 +861,13 @@ func TestVerifC14RuleSet(t *testing.T) {
 	n := vf.N(600)
 	idx := 0
 
-	emit := func(stream string, c c14Case) {
+	emit := func(stream string, c c14SetCase) {
 		if vf.Want(idx) {
 			o := c14RunRuleSet(c)
+			nt := len(c.Rules) > 1 || (len(o.Rules) == 1 && c14Nontrivial(c14Case{Proxy: c.Proxy, Def: c.Def, Rule: c.Rules[0]}, o.Rules[0]))
 			w.Put(vf.Obs{
-				I: idx, Stream: stream, In: map[string]any{"case": c, "yaml": c14Yaml(c)}, Out: o, Coq: c14Coq(c, o),
-				Nontrivial: c14Nontrivial(c, o), Tags: []string{"rs-status:" + o.Status},
+				I: idx, Stream: stream, In: map[string]any{"case": c, "yaml": c14Yaml(c)}, Out: o, Coq: c14CoqSet(c, o),
+				Nontrivial: nt, Tags: []string{"rs-status:" + o.Status, fmt.Sprintf("rs-rules:%d", len(c.Rules))},
 			})
 		}
 
@@ -773,11 +875,11 @@ func TestVerifC14RuleSet(t *testing.T) {
 	}
 
 	for _, c := range c14Corpus() {
-		emit("corpus", c)
+		emit("corpus", c14SetCase{Proxy: c.Proxy, Def: c.Def, Rules: []c14Rule{c.Rule}})
 	}
 
 	for i := 0; i < n; i++ {
-		emit("generated", c14Gen(root.Fork(uint64(i))))
+		emit("generated", c14GenSet(root.Fork(uint64(i))))
 	}
 }
 
